@@ -229,7 +229,7 @@ def fmt(hist):
 
 
 # ------------------------------------------------------------------------------------------------ search
-def search(part, init_idx, first_ops, depth_cap, thorough, checksum_depth, collect=None):
+def search(part, init_idx, first_ops, depth_cap, thorough, checksum_depth):
     """BFS below the prefix `first_ops` (applied to initial state number init_idx)"""
     contents = list(CONTENTS)[:3]
     init = initial_states(True)[init_idx]
@@ -239,8 +239,6 @@ def search(part, init_idx, first_ops, depth_cap, thorough, checksum_depth, colle
     frontier = collections.deque()
     transitions = 0
     nobs = 0
-    maxdepth = 0
-    capped = False
 
     def step(st, hist, op):
         """real transition; returns new state (or the same state object for pure observations)"""
@@ -292,11 +290,7 @@ def search(part, init_idx, first_ops, depth_cap, thorough, checksum_depth, colle
     last = hist
     while frontier:
         st, hist, depth = frontier.popleft()
-        maxdepth = max(maxdepth, depth)
-        if depth >= depth_cap:
-            capped = True
-            if collect is not None:
-                collect.append(hist)
+        if depth >= depth_cap:  # the bound of the search (histories of length <= depth_cap)
             continue
         for op in enabled(st, contents):
             new = step(st, hist, op)
@@ -310,10 +304,25 @@ def search(part, init_idx, first_ops, depth_cap, thorough, checksum_depth, colle
     part.traces += transitions
     part.coverage["observations"] = part.coverage.get("observations", 0) + nobs
     part.coverage["searches"] = part.coverage.get("searches", 0) + 1
-    if not capped:
-        part.coverage["searches_at_fixed_point"] = part.coverage.get("searches_at_fixed_point", 0) + 1
+    # the harness owns the nondeterminism: the last explored history replayed twice from a clean world gives equal observations
+    if observations(w, init, last) != observations(w, init, last):
+        raise RuntimeError(f"history {fmt(last)} is not reproducible")
     part.sample(dict(label, history=last), cap=2)
     shutil.rmtree(w.base, ignore_errors=True)
+
+
+def observations(w, init, hist):
+    """all (shared, alone) pairs observed along a history executed sequentially on a clean world"""
+    st, out = init, []
+    w.restore(dict(st, cache={}))
+    for op in hist:
+        if op[0] == "hash":
+            out.append(w.observe(op[1]))
+        else:
+            new = model_apply(st, op)
+            w.real_op(st, op, new)
+            st = new
+    return out
 
 
 def replay_history(w, init, hist, seam="hash_function"):
